@@ -26,6 +26,21 @@ RULE = ("whole sessions through the real daemons (ASan+UBSan build of the workin
         "substitution from an 11-byte alphabet in short QMTP/QMQP requests, lengths written with non-digit characters in each of the four QMTP length "
         "positions, the k-th write to the queue program failing (k=0..6) for small / >1 KiB body / >1 KiB envelope; plus %s seeded random structured "
         "sessions per run with truncation / substitution / insertion / deletion mutations, HELO/TCPREMOTE* strings with unsafe bytes, 23 clock values. "
+        "Peer-supplied strings: every byte value 0..255 alone and inside longer strings (and all of 1..255 in one string) in each of TCPREMOTEHOST, "
+        "TCPREMOTEIP, TCPREMOTEINFO, TCPLOCALHOST, TCPLOCALIP and the HELO / EHLO argument (LF excepted there), for each daemon; the Received field of every "
+        "acknowledged message is compared with the specification built from the documented safe set (Spec.C07.safeSpec, not the table read from the code) "
+        "and judged for RFC 822 well-formedness (Spec.C07.wf822: printable ASCII, balanced comments, no backslash or quote, one fold). "
+        "Address lengths 0,1,2,50..850 step 50, 250..260, 890..910, 990..1010, 1018..1030 as sender / only / middle / last recipient (QMTP and SMTP also with "
+        "RELAYCLIENT) for each daemon. "
+        "Real-queue leg (about 3000 sessions, protocol letter in lower case): the same daemons with QMAILQUEUE = the unmodified qmail-queue.c (harness/c07_rqq.c) "
+        "on a private queue directory: clean sessions (bodies and envelopes beyond the 1024-byte buffer of qmail.c and the 8192-byte direct-write threshold), every "
+        "cut point of short sessions, envelopes longer than 1024 bytes with the sender length swept over a full period of the recipient record size (4, 8, 16, "
+        "100 bytes) so that the part flushed to qmail-queue ends at every position of a record, followed by a disconnect (4 cut points), a recipient with NUL, a "
+        "1000+ byte recipient, broken framing; SMTP cuts through commands and DATA, 100 hops, oversize, write faults; 1 in 25 random sessions. Judged twice: on the "
+        "pipes, and with the queue directory (todo/<inode> carrying the run's pid, mess file behind qmail-queue's own trace line) as the witness of 'queued'; "
+        "plus: nothing is committed unless the envelope stream was complete. "
+        "A harness stopped by ASan/UBSan inside the daemon's code leaves the session it was running behind; it is re-run on the same harness built without "
+        "instrumentation and reported as an oracle failure (with what the uninstrumented code answered and queued). "
         "Compared with the Lean model: every reply byte, the daemon's exit status, every byte each queue run received on descriptors 0 and 1. "
         "Oracle (independent strict netstring grammar, reference SMTP decoder, independent calendar and hop count, qmail-queue.8 exit classes): "
         "ack => exactly that message with a complete envelope of exactly the acknowledged addresses and exit 0; no ack => no complete envelope or "
@@ -99,9 +114,14 @@ def mutate_cases(dis, seed, per=150):
 
 
 def main():
+    import time
     c = Check(PROP)
+    phase = c.cov.setdefault("phase_s", {})
+    t0 = time.time()
     ok = c.proofs("Nq.Props.C07", drivers=["drv_c07"])
+    phase["proofs"] = round(time.time() - t0, 1); t0 = time.time()
     s = c.build_repo(targets="qmail-smtpd qmail-qmtpd qmail-qmqpd qmail-queue")
+    phase["build"] = round(time.time() - t0, 1); t0 = time.time()
     stats, samples, disagree, oracle, errors = {}, [], [], [], []
     neighbourhood = None
     nrand = NRANDOM[c.tier]
@@ -169,7 +189,7 @@ def main():
                 for name, cases in cc.items():
                     msg = ""
                     for e in errs:
-                        m = re.search(r"(runtime error: [^\n]*|ERROR: AddressSanitizer: [^\n]*|SUMMARY: [^\n]*)", e)
+                        m = re.search(r"(runtime error: [^\n]*|ERROR: AddressSanitizer: [^\n]*|SUMMARY: [^\n]*|TIMEOUT: the pipeline did not finish within the deadline)", e)
                         if m:
                             msg = m.group(1)
                             break
@@ -189,7 +209,7 @@ def main():
                         lines += ["%s sanitizer=%s" % (x, (msg or "abort").replace(" ", "_")) for x in more]
                     else:
                         for cs in cases:
-                            lines.append("kind=sanitizer-abort what=the_daemon's_code_was_stopped_by_ASan/UBSan_on_this_session_(%s);_the_uninstrumented_build_shows_no_oracle_failure case=%s"
+                            lines.append("kind=sanitizer-abort what=the_harness_was_stopped_inside_the_daemon's_code_on_this_session_(%s);_the_uninstrumented_build_shows_no_oracle_failure case=%s"
                                          % ((msg or "abort").replace(" ", "_"), cs.replace(" ", "|")))
                 return lines
             cmds = []
@@ -208,11 +228,14 @@ def main():
                     # ';' between the harnesses: one of them being stopped by a sanitizer must not keep the others from running
                     cmds.append("(rc=0; " + " ".join(["%s || rc=$?;" % hcmd(n, "%d %d %d %d" % (nrand[n], c.seed, i, NCPU)) for n, _, _ in HARNESSES] +
                                                     ["%s %d %d %d %d || rc=$?;" % (hdate, NDATE[c.tier], c.seed, i, NCPU)]) + " exit $rc)")
+            phase["harness_build"] = round(time.time() - t0, 1); t0 = time.time()
             outs = run_pipeline(cmds, drv, env=env)
             stats, samples, disagree, oracle, errors = parse_driver_output(outs)
+            phase["run"] = round(time.time() - t0, 1); t0 = time.time()
             if errors:
                 # a harness that was stopped inside the daemon's code: the session it was running is a concrete failing input
                 oracle += sanitizer_stops(errors)
+                phase["sanitizer_stops"] = round(time.time() - t0, 1)
 
             def neighbourhood(dis):
                 cases = mutate_cases(dis, c.seed)
@@ -242,7 +265,7 @@ def main():
         else:
             rest.append(line)
     c.cov["known_finding_cases"] = len(oracle) - len(rest)
-    oracle = rest
+    oracle = sorted(rest, key=lambda l: len(kv(l).get("case", "")))      # report the shortest failing session
 
     c.cov["evaluations"] = int(stats.get("cases", 0))
     c.cov["distinct_nontrivial"] = int(stats.get("distinct_nontrivial", 0))
@@ -252,7 +275,8 @@ def main():
     c.cov["samples"] = [x[:1200] for x in samples[:6]] or ["(no sample emitted)"]
     c.cov["input_distribution"] = {k: v for k, v in stats.items() if k not in ("cases", "distinct_nontrivial", "disagree", "oracle_fail")}
     c.assumptions += [
-        "the queue program honours the qmail-queue interface: it exits 0 only after reading a complete envelope, and a custom text on exit 82 starts with D or Z (texts starting otherwise are run and compared with the model but are outside the oracle)",
+        "stand-in legs: the queue program honours the qmail-queue interface: it exits 0 only after reading a complete envelope, and a custom text on exit 82 starts with D or Z (texts starting otherwise are run and compared with the model but are outside the oracle); the real-queue leg checks the first half of this on the real qmail-queue.c (commit => complete envelope and exit 0) for the streams the daemons produce - all-or-nothing under crashes and system-call faults is C01",
+        "real-queue leg: qmail-queue's end is drained (it goes away only after the daemon closed both pipes: one of the schedules the kernel allows, and the deterministic one); its uid is the uid of the test run, its clock the real clock (only its own first trace line depends on them, which the oracle skips after checking its fixed prefix)",
         "client bytes arrive in order whatever the read sizes (chunkings 0/1/3/100 are run); pipes do not short-write; a failing write to the queue program writes nothing",
         "netstring lengths: ASCII digits only; leading zeros and an empty digit string are tolerated by the oracle as the daemons tolerate them",
         "SMTP sessions are generated from the grammar HELO? MAIL RCPT* DATA with plain addresses (no quoting/source routes: address parsing and relay gating are C08); control/rcpthosts = {ok.example, .sub.example, LocalHost}",
